@@ -210,6 +210,14 @@ def runPa (args : List String) : String × String :=
         let ok := a.length ≤ 64 ∧ b.length ≤ 64 ∧ b.all (· < 64)
         (optNat (p.editDistance b), if ok then toString (Spec.editDistanceDP a b) else "PANIC")
     | _, _ => ("bad-op", "-")
+  | ["hs", x, len] =>
+    match x.toNat?, len.toNat? with
+    | some x, some len =>
+      let v := BitVec.ofNat 64 x
+      -- specification: some `len` consecutive positions of the 64 are all set
+      let naive := len = 0 || (len ≤ 64 && (List.range (65 - len)).any fun i => (List.range len).all fun j => v.getLsbD (i + j))
+      (b2s (hasSequences v len), b2s naive)
+    | _, _ => ("bad-op", "-")
   | ["cs", a, b] =>
     match bytesOfHex a, bytesOfHex b with
     | some a, some b =>
